@@ -134,6 +134,7 @@ type FnCtx struct {
 	assertSeen map[string]bool
 	hintPass    int
 	provedHints map[string]bool
+	inlineDepth int
 }
 
 func (c *FnCtx) fresh(hint, sort string) Term {
